@@ -189,14 +189,15 @@ def deqLeafDeref (env : DeqEnv) (ch : Node) (path : String) (l r : Val) : DeqR :
   | _ => .panic
 termination_by structural l
 
-/-- `for k := range l { lx := l[k]; rx, ok := r[k]; if !ok { return false }; … }`. -/
+/-- `for k := range l { lx := l[k]; rx, ok := r[k]; if !ok { return false }; … }`. A pointer-typed key of an
+independent object is never found in the other map — except the nil pointer, which equals itself. -/
 def deqMapVals (env : DeqEnv) (mk mv : Node) (path : String) (lks lvs rks rvs : List Val) : DeqR :=
   match lvs with
   | [] => .cont
   | lv :: lvs' =>
     match lks with
     | lk :: lks' =>
-      (match (if mk.ptr && !env.ident then none else lookupKey rks rvs lk) with
+      (match (if mk.ptr && !env.ident && !lk.isNilPtr then none else lookupKey rks rvs lk) with
        | none => .retFalse
        | some rv =>
          match deqN env mv false false path lv rv with
@@ -234,11 +235,15 @@ def deqArgOf : Form → DeqArg
   | .nilPtrPtr => .panic
   | .untypedNil | .foreign => .unrecognised
 
+/-- A nil `**T` argument: `lx, leq = *lp, true` dereferences it in the header (compiler.go:400-401); the
+repaired emitter (`nilRootPanics` off) refuses it like an unrecognised argument. -/
+def deqNilPtrPtr (cfg : GenCfg) : DeqOut := if cfg.nilRootPanics then .panic else .f
+
 def deqM (env : DeqEnv) (n : Node) (fl fr : Form) (l r : Val) : DeqOut :=
   match deqArgOf fl, deqArgOf fr with
-  | .panic, _ => .panic
-  | .ok, .panic | .nilX, .panic => .panic
-  | .unrecognised, .panic => .panic      -- `*rp` is evaluated before `!leq || !req`
+  | .panic, _ => deqNilPtrPtr env.cfg
+  | .ok, .panic | .nilX, .panic => deqNilPtrPtr env.cfg
+  | .unrecognised, .panic => deqNilPtrPtr env.cfg      -- `*rp` is evaluated before `!leq || !req`
   | .unrecognised, _ | _, .unrecognised => .f
   | .nilX, .nilX => .t
   | .nilX, .ok | .ok, .nilX => .f
